@@ -812,17 +812,17 @@ def vps_run(case, seed, drv=None, inject=None, ibm=None, state=None):
     res = dict(before=before, after=after, model=None, sched=(expected, got), meta={}, n=n, state=state, ibm=ibm)
     if drv is not None and expected == got:
         u = rec.log[0][3]
-        idx = [drv.ask("vps.z", F(case["maxd"]), F(u[i])) for i in range(n)]
+        idx = [drv.ask("vps.update", F(case["maxd"]), F(case["dt"]), F(u[i]), F(case["u"][i]), F(case["v"][i]),
+                       F(before["z"][i]), F(before["age"][i]), B(before["alive"][i])) for i in range(n)]
 
         def finish(replies):
-            z = []
+            mm = dict(z=[], age=[], alive=[])
             for j in idx:
                 st, t = replies[j]
                 if st != "ok":
                     raise RuntimeError("driver error: %s" % (t,))
-                z.append(unF(t[0]))
-            res["model"] = dict(z=np.array(z), age=before["age"] + case["dt"],
-                                alive=before["alive"] & (before["age"] + case["dt"] < 2 ** 30) & ((case["u"] != 0) | (case["v"] != 0)))
+                mm["z"].append(unF(t[0])); mm["age"].append(unF(t[1])); mm["alive"].append(t[2] == "1")
+            res["model"] = {k: np.array(v) for k, v in mm.items()}
         res["finish"] = finish
     return res
 
